@@ -166,6 +166,23 @@ pub fn tree_scenario(n: usize, order: &str, action: &str) -> u64 {
             if order == "desc" { s.extend((0..n as u32).rev()); } else { s.extend(0..n as u32); }
             assert!(s.into_iter().skip(n).next().is_none());
         }
+        // min / max on the untouched chain (before any lookup has splayed it): the extreme key sits
+        // at the far end
+        "minmax" => {
+            let (lo, hi) = (t.min().copied(), t.max().copied());
+            assert!(lo.is_some() && hi.is_some() && lo <= hi);
+            if order != "random" {
+                assert_eq!((lo, hi), (Some(0), Some(n as u32 - 1)));
+            }
+            assert_eq!(t.min().copied(), lo);
+            assert!(!t.is_empty());
+            let mut s = SplaySet::new(cmp_u as fn(&u32, &u32) -> Ordering);
+            if order == "desc" { s.extend((0..n as u32).rev()); } else { s.extend(0..n as u32); }
+            assert_eq!(s.max().copied(), Some(n as u32 - 1));
+            assert_eq!(s.min().copied(), Some(0));
+            drop(s);
+            drop(t);
+        }
         "query" => {
             // lookups splay the chain; every one must stay iterative
             let mut acc = 0u64;
